@@ -48,6 +48,11 @@ def _work(args):
     return codec_worker.work(args)
 
 
+def _repass(args):
+    import codec_worker
+    return codec_worker.repass(args)
+
+
 def _work_comm(args):
     import comm_worker
     return comm_worker.work(args)
@@ -82,6 +87,9 @@ def run(prop, tier, seed):
                 with open(p) as fh:
                     shutil.copyfileobj(fh, out)
                 os.remove(p)
+        if prop != 'C17':
+            with mp.get_context('fork').Pool(1) as pool:
+                pool.apply(_repass, ((items, nd),))
         rej, vst = validate(nd, {prop})
         byid = {}
         want = set(r['tid'] for r in rej)
